@@ -192,3 +192,32 @@ func VerifC15ReadErrors() {
 	}
 	var _ = auparse.AUDIT_LOGIN
 }
+
+// C15 (d): a failure reported by the correlator from inside the reassembler callback (here: a
+// LOGIN record whose pid is not a number) stops the audit processor with that error - also when
+// Read is busy with something else (an unrelated login) at the moment the callback reports it.
+func VerifC15CallbackError() {
+	SetLogger(zap.NewNop().Sugar())
+	enc := &verifEnc{}
+	audits := make(chan string, 2)
+	logins := make(chan common.RemoteUserLogin, 1)
+	a := &Auditd{Audits: audits, Logins: logins, EventW: auditevent.NewAuditEventWriter(enc), Health: health.NewHealth()}
+	good := auditevent.NewAuditEvent(common.ActionLoginIdentifier, auditevent.EventSource{Type: "IP", Value: "a"}, auditevent.OutcomeSucceeded, map[string]string{"loggedAs": "u"}, "sshd")
+	if verifrt.Bool("a-login-is-pending-too") {
+		logins <- common.RemoteUserLogin{Source: good, PID: 31000, CredUserID: "x"}
+	}
+	audits <- "type=LOGIN msg=audit(1668460768.200:30166): pid=abc uid=0 old-auid=4294967295 auid=1000 tty=(none) old-ses=4294967295 ses=499 res=1"
+	ctx, cancel := context.WithCancel(context.Background())
+	defer cancel()
+	done := make(chan error, 1)
+	go func() { done <- a.Read(ctx) }()
+	err := <-done // a processor that drops the failure keeps running: shows up as a hang
+	verifrt.Reach("c15.cb.stopped")
+	verifrt.Assert("c15.cb.error", err != nil)
+	if err == nil {
+		return
+	}
+	var ce *reassemblerCBError
+	verifrt.Assert("c15.cb.error-kept", errors.As(err, &ce))
+	verifrt.Assert("c15.cb.nothing-emitted", len(enc.events) == 0)
+}
